@@ -1315,6 +1315,8 @@ func q06ConfErr(err error) string {
 		return "mismatch"
 	case strings.Contains(s, "signature verification failed"):
 		return "badsig"
+	case strings.Contains(s, "by the same eth key"): // only with tools/patches/c06_batch_confirm_key_once.patch
+		return "dupkey"
 	case strings.Contains(s, "duplicate signature"):
 		return "dup"
 	}
